@@ -16,6 +16,9 @@ import multiprocessing as mp
 
 ROOT = os.path.dirname(os.path.dirname(os.path.abspath(__file__)))
 REPO = os.environ.get('EMMET_REPO', '/repo')
+# evaluation runs against seeded changes redirect their output so that committed evidence is never overwritten
+EVIDENCE_DIR = os.environ.get('VERIF_EVIDENCE_DIR') or os.path.join(ROOT, 'evidence')
+REPLAY_DIR = os.environ.get('VERIF_REPLAY_DIR') or os.path.join(ROOT, 'replays')
 OUTCOME_CAP = 400000
 TICK = 1.0
 
@@ -138,9 +141,9 @@ def git_state(repo):
 
 
 def write_replay(pid, cls, case, detail, count, tier, mod):
-    os.makedirs(os.path.join(ROOT, 'replays'), exist_ok=True)
+    os.makedirs(REPLAY_DIR, exist_ok=True)
     h = hashlib.sha1((cls + json.dumps(case, sort_keys=True, default=str)).encode()).hexdigest()[:10]
-    path = os.path.join(ROOT, 'replays', '%s-%s.json' % (pid, h))
+    path = os.path.join(REPLAY_DIR, '%s-%s.json' % (pid, h))
     doc = dict(property=pid, violation_class=cls, case=case, detail=detail, count_in_sweep=count, tier=tier,
                replay_cmd='./check --replay %s' % os.path.relpath(path, ROOT))
     if hasattr(mod, 'repro'):
@@ -350,8 +353,8 @@ def run_check(pid, tier):
     )
     ev = dict(property_id=pid, tier=tier, seed=seed, level='model_checking', coverage=cov,
               assumptions=info.get('assumptions', []), wall_s=round(wall, 2), violations=len(new))
-    os.makedirs(os.path.join(ROOT, 'evidence'), exist_ok=True)
-    with open(os.path.join(ROOT, 'evidence', pid + '.json'), 'w') as f:
+    os.makedirs(EVIDENCE_DIR, exist_ok=True)
+    with open(os.path.join(EVIDENCE_DIR, pid + '.json'), 'w') as f:
         json.dump(ev, f, indent=1, ensure_ascii=False, default=str)
     print('%s %s: states=%d transitions=%d executions=%d validated=%d nontrivial=%d outcomes=%d skipped=%s wall=%.1fs' % (
         pid, tier, tot['states'], tot['transitions'], tot['evals'], tot['validated'], tot['nontrivial'], len(outcomes),
